@@ -8,6 +8,7 @@ import (
 	"math/big"
 	"math/rand"
 	"os"
+	"sort"
 	"strings"
 	"testing"
 	"time"
@@ -43,6 +44,8 @@ type scenario struct {
 	convert  bool    // Quai->Qi and Qi->Quai conversions and Qi spends
 	reorgAt  int     // 0 = none; block index at which a competing branch is built
 	dupUncle bool
+	noRevert bool // the claim script never uses the claim-then-revert stage (keeps the listed C12 finding out of this net)
+	flip     bool // crafted shares of one other miner always use the contract layout with an alternating delegate
 }
 
 // NOTE: the miner's lockup byte / preference are fixed per net. Changing them on
@@ -60,7 +63,7 @@ func scenarios(m *mon.M, r *rand.Rand) []scenario {
 		{name: "plain-byte3-mixed-ledgers-shares", blocks: n + 6, lockByte: 3, pref: 0.3, shares: 1},
 		{name: "contract-byte1-quai", blocks: n + 12, lockByte: 1, pref: quaiOnly, contract: true, deployAt: 14},
 		{name: "contract-byte0-mixed-ledgers-shares", blocks: n + 12, lockByte: 0, pref: 0.35, contract: true, deployAt: 12, shares: 1, crafted: true},
-		{name: "contract-byte2-shares-reorg", blocks: n + 12, lockByte: 2, pref: 0.2, contract: true, deployAt: 10, shares: 1, crafted: true, reorgAt: 46},
+		{name: "contract-byte2-shares-reorg", blocks: n + 12, lockByte: 2, pref: 0.2, contract: true, deployAt: 10, shares: 2, crafted: true, flip: true, noRevert: true, reorgAt: 46},
 		{name: "contract-byte3-quai", blocks: n + 16, lockByte: 3, pref: quaiOnly, contract: true, deployAt: 9},
 	}
 	if !m.Thorough() {
@@ -108,6 +111,9 @@ type netState struct {
 	claimRec   map[string]*lrec
 	claimSeq   int
 	skipRevert map[string]bool
+	mined      map[common.Hash]*hnet.Mined
+	opts       hnet.Options
+	flipSeq    int
 }
 
 func ia(a common.Address) common.InternalAddress {
@@ -126,12 +132,13 @@ func runScenario(m *mon.M, r *rand.Rand, sc scenario) {
 	allocs := w.GenAllocs(fund)[3:]
 	opts := hnet.Options{GenAllocs: allocs, QuaiCoinbase: w.Quai[0].Addr, QiCoinbase: w.Qi[0].Addr, CoinbaseLockup: sc.lockByte, MinerPreference: sc.pref}
 	ns := &netState{sc: sc, minerQ: w.Quai[0].Addr, minerQi: w.Qi[0], convTo: w.Quai[1].Addr, claimTo: w.Quai[2].Addr, claimQi: w.Qi[1],
-		funded: w.Quai[5:], resent: map[common.Hash]bool{}, earlyTried: map[string]bool{}, lateSpent: map[string]int{}, claimPlan: map[string]int{}, claimRec: map[string]*lrec{}, skipRevert: map[string]bool{}}
+		funded: w.Quai[5:], resent: map[common.Hash]bool{}, earlyTried: map[string]bool{}, lateSpent: map[string]int{}, claimPlan: map[string]int{}, claimRec: map[string]*lrec{}, skipRevert: map[string]bool{}, mined: map[common.Hash]*hnet.Mined{}}
 	if sc.contract {
 		ns.owner = newOwnerContract(w.Quai[3], 0)
 		ns.other = newOwnerContract(w.Quai[4], 0)
 		opts.LockupContract = &ns.owner.addr
 	}
+	ns.opts = opts
 	n, err := hnet.New(opts)
 	if err != nil {
 		m.Violation("harness-start", err.Error(), map[string]any{"net": sc.name})
@@ -167,6 +174,7 @@ func runScenario(m *mon.M, r *rand.Rand, sc scenario) {
 			m.Violation("own-block-not-executable", err.Error(), map[string]any{"net": sc.name, "block": i, "hash": mined.Hash.Hex(), "wire_zone": mon.Short(mined.Wire[2], 1<<15)})
 			return false
 		}
+		ns.mined[mined.Hash] = mined
 		return x.observe(mined)
 	}
 	sincePrime := 0
@@ -197,6 +205,9 @@ func runScenario(m *mon.M, r *rand.Rand, sc scenario) {
 		}
 	}
 	x.finish(30)
+	if sc.reorgAt > 0 {
+		ns.compareWithFreshNode()
+	}
 	m.AddExtra("nets_completed", 1)
 }
 
@@ -261,6 +272,7 @@ func (ns *netState) reorg(i int, step func(int, hnet.MineOpts) bool) bool {
 		x.m.Violation("switch-to-ancestor-failed", err.Error(), map[string]any{"net": x.name})
 		return false
 	}
+	ns.checkRollback(x.idx[anc[2].Hash()], x.idx[tipA.Hash()])
 	c0, a0 = x.creditsSeen, x.accumSeen
 	for k := 0; k < ka+1; k++ {
 		if !step(i, hnet.MineOpts{WantOrder: 2}) {
@@ -282,6 +294,136 @@ func (ns *netState) reorg(i int, step func(int, hnet.MineOpts) bool) bool {
 	}
 	x.m.AddExtra("reorg_depth_total", int64(ka))
 	return true
+}
+
+// checkRollback: after the node switched back from the tip of the abandoned
+// branch to the fork block, the contract-held lockup records in the database
+// must be exactly those the fork block left (model of that block).
+func (ns *netState) checkRollback(anc, tipA *blk) {
+	x := ns.x
+	if anc == nil || tipA == nil {
+		return
+	}
+	db, err := scanLocks(x)
+	if err != nil {
+		x.m.Violation("lockup-record-undecodable", err.Error(), x.wit(anc, nil))
+		return
+	}
+	wit := func(k string) map[string]any {
+		return x.wit(anc, map[string]any{"record": k, "abandoned_tip": tipA.hash.Hex(), "abandoned_tip_number": tipA.num})
+	}
+	var keys []string
+	for k := range anc.locks {
+		keys = append(keys, k)
+	}
+	for k := range db {
+		if anc.locks[k] == nil {
+			keys = append(keys, k)
+		}
+	}
+	sort.Strings(keys)
+	for _, k := range keys {
+		mr, dr := anc.locks[k], db[k]
+		known := false
+		for _, fb := range x.failedClaimDeleted[k] {
+			if x.onChainOf(fb, tipA) && !x.onChainOf(fb, anc) {
+				known = true // reported at the first block of the winning branch under its own signature
+			}
+		}
+		switch {
+		case mr == nil:
+			x.m.Violation("rollback-leaves-lockup-record-of-abandoned-branch", fmt.Sprintf("record %s (balance %v, %d elements) exists after the rollback to block %d but not in that block's state", k, dr.Balance, dr.Elements, anc.num), wit(k))
+		case dr.Balance == nil:
+			if !known {
+				x.m.Violation("rollback-does-not-restore-lockup-record", fmt.Sprintf("record %s (balance %v, %d elements at block %d) is missing after the rollback", k, mr.Balance, mr.Elements, anc.num), wit(k))
+			}
+		default:
+			if dr.Balance.Cmp(mr.Balance) != 0 || dr.Elements != mr.Elements || (mr.TrancheSeen && dr.Tranche != mr.Tranche) {
+				x.m.Violation("rollback-restores-wrong-lockup-balance", fmt.Sprintf("record %s after the rollback to block %d: balance %v / %d elements / tranche %d, state of that block: %v / %d / %d", k, anc.num, dr.Balance, dr.Elements, dr.Tranche, mr.Balance, mr.Elements, mr.Tranche), wit(k))
+			}
+			if dr.Delegate != mr.Delegate {
+				x.m.Violation("rollback-restores-wrong-lockup-delegate", fmt.Sprintf("record %s after the rollback from block %d to block %d: delegate %x, state of block %d had delegate %x", k, tipA.num, anc.num, dr.Delegate, anc.num, mr.Delegate), wit(k))
+			}
+			x.m.Eval("rollback:lockup-record-compared", k+anc.hash.Hex())
+		}
+	}
+}
+
+// compareWithFreshNode feeds only the winning chain to a fresh hierarchy (as a
+// node that never saw the abandoned branch) and compares the contract-held
+// lockup records of both nodes at the head.
+func (ns *netState) compareWithFreshNode() {
+	x := ns.x
+	head := x.idx[x.n.Heads()[2].Hash()]
+	if head == nil {
+		return
+	}
+	var chain []*hnet.Mined
+	for b := head; b != nil; b = x.idx[b.parent] {
+		mm := ns.mined[b.hash]
+		if mm == nil {
+			return
+		}
+		chain = append([]*hnet.Mined{mm}, chain...)
+	}
+	tainted := false
+	for _, bl := range x.failedClaimDeleted {
+		for _, fb := range bl {
+			if !x.onChainOf(fb, head) {
+				// the listed finding (a failed claim deletes a record without undo data) happened on the abandoned
+				// branch: the reorged node lost a record that a fresh node still has
+				tainted = true
+			}
+		}
+	}
+	suffix := ""
+	if tainted {
+		suffix = ":after-failed-claim-deleted-a-record"
+	}
+	o := ns.opts
+	fresh, err := hnet.New(hnet.Options{GenAllocs: o.GenAllocs, QuaiCoinbase: o.QuaiCoinbase, QiCoinbase: o.QiCoinbase, CoinbaseLockup: o.CoinbaseLockup, LockupContract: o.LockupContract, MinerPreference: o.MinerPreference})
+	if err != nil {
+		x.m.Inconclusive("fresh node did not start: " + err.Error())
+		return
+	}
+	defer fresh.Stop()
+	for _, mm := range chain {
+		wit := map[string]any{"net": x.name, "block_hash": mm.Hash.Hex(), "number": mm.Number, "order": mm.Order, "wire_zone": mon.Short(mm.Wire[2], 1<<15)}
+		if err := fresh.Follow(mm); err != nil {
+			x.m.Violation("fresh-node-rejects-winning-chain"+suffix, fmt.Sprintf("block %d of the chain the reorged node mined and accepted: %v", mm.Number[2], err), wit)
+			return
+		}
+		if err := fresh.Settle(); err != nil {
+			x.m.Violation("fresh-node-cannot-execute-winning-chain"+suffix, fmt.Sprintf("block %d of the chain the reorged node mined and accepted: %v", mm.Number[2], err), wit)
+			return
+		}
+	}
+	a, b := hnet.AllLockups(x.n.Zone().DB), hnet.AllLockups(fresh.Zone().DB)
+	am, bm := map[string]string{}, map[string]string{}
+	for _, l := range a {
+		am[string(l.Key)] = string(l.Value)
+	}
+	for _, l := range b {
+		bm[string(l.Key)] = string(l.Value)
+	}
+	var diffs []string
+	for k, v := range am {
+		if bv, ok := bm[k]; !ok {
+			diffs = append(diffs, fmt.Sprintf("record %x only on the reorged node", k))
+		} else if bv != v {
+			diffs = append(diffs, fmt.Sprintf("record %x: reorged %x fresh %x", k, v, bv))
+		}
+	}
+	for k := range bm {
+		if _, ok := am[k]; !ok {
+			diffs = append(diffs, fmt.Sprintf("record %x only on the fresh node", k))
+		}
+	}
+	sort.Strings(diffs)
+	if len(diffs) > 0 {
+		x.m.Violation("lockup-records-of-reorged-node-differ-from-fresh-node"+suffix, fmt.Sprintf("%d differences at head %d: %v", len(diffs), head.num, diffs), map[string]any{"net": x.name, "head": head.hash.Hex(), "differences": diffs})
+	}
+	x.m.Eval("reorged-vs-fresh-node:lockup-records", head.hash.Hex())
 }
 
 func TestC13(t *testing.T) {
